@@ -1,5 +1,5 @@
 (* Checkers evaluated by the correspondence run (indices of mismatching cases). *)
-From V Require Import Common.Base C06.TsTokens C06.SkipType C06.Enum.
+From V Require Import Common.Base C06.TsTokens C06.SkipType C06.Enum C06.TsTarget.
 
 Fixpoint mism_from {A} (f : A -> bool) (l : list A) (i : nat) : list nat :=
   match l with
@@ -32,3 +32,5 @@ Definition skip_ok (c : Z * Z * Z * toks * bool * Z * list tk) : bool :=
 Definition check_skip := mismatches skip_ok.
 
 Definition check_enum := mismatches enum_case_ok.
+
+Definition check_target := mismatches target_case_ok.
